@@ -67,15 +67,18 @@ func genID(t *rapid.T, label string) ID {
 		case 4:
 			id.T, id.NS = 0, string(b6.NamespaceGBUPRN)
 		case 5:
+			// packed here, not by the function under test: 6 bits per symbol (0-9, then A-Z), then 2 bits of length-5
 			n := rapid.IntRange(5, 7).Draw(t, label+"pclen")
-			b := make([]byte, n)
-			for i := range b {
-				b[i] = alnum[rapid.IntRange(0, 35).Draw(t, label+"pc")]
+			v := uint64(0)
+			for i := 0; i < n; i++ {
+				v = v<<6 | uint64(rapid.IntRange(0, 35).Draw(t, label+"pc"))
 			}
-			return fromFID(b6.PointIDFromGBPostcode(string(b)))
+			return fromFID(b6.FeatureID{Type: b6.FeatureTypePoint, Namespace: b6.NamespaceGBCodePoint, Value: v<<2 | uint64(n-5)})
 		case 6:
-			code := fmt.Sprintf("%c%08d", 'A'+rapid.IntRange(0, 25).Draw(t, label+"letter"), rapid.IntRange(0, 99999999).Draw(t, label+"number"))
-			return fromFID(b6.FeatureIDFromUKONSCode(code, rapid.IntRange(1900, 2155).Draw(t, label+"year"), b6.FeatureTypeArea))
+			// packed here, not by the function under test: letter<<40 | (year-1900)<<32 | number
+			letter, number := uint64('A'+rapid.IntRange(0, 25).Draw(t, label+"letter")), uint64(rapid.IntRange(0, 99999999).Draw(t, label+"number"))
+			year := uint64(rapid.SampledFrom([]int{1900, 1901, 2011, 2021, 2027, 2028, 2029, 2100, 2154, 2155, rapid.IntRange(1900, 2155).Draw(t, label+"anyyear")}).Draw(t, label+"year") - 1900)
+			return fromFID(b6.FeatureID{Type: b6.FeatureTypeArea, Namespace: b6.NamespaceUKONSBoundaries, Value: letter<<40 | year<<32 | number})
 		}
 	}
 	id.V = gen.U64().Draw(t, label+"value")
@@ -276,6 +279,12 @@ func check(c Case) vlib.Outcome {
 			}
 			if want, got := fmt.Sprintf("/uk/ons/%d/%s", year, code), api.UnparseFeatureID(id, true); got != want {
 				return vlib.Fail("UnparseFeatureID(%v) = %q, the ID packs ONS code %q year %d so expected %q", id, got, code, year, want)
+			}
+			if back := b6.FeatureIDFromUKONSCode(code, year, b6.FeatureTypeArea); back != id {
+				return vlib.Fail("FeatureIDFromUKONSCode(%q, %d) = %v, want %v", code, year, back, id)
+			}
+			if c, y, ok := b6.UKONSCodeFromFeatureID(id); !ok || c != code || y != year {
+				return vlib.Fail("UKONSCodeFromFeatureID(%v) = %q, %d, %v; want %q, %d", id, c, y, ok, code, year)
 			}
 		}
 	}
